@@ -43,7 +43,7 @@ def memLen (slen : Int64) : UInt64 := UInt64.ofInt slen.toInt
 
 /-- core/vm.memoryGasCost (with `(*Memory).Len`): the generated definition computes the model function of C08. -/
 theorem memoryGasCost_translated_eq (slen : Int64) (lgc n : UInt64) :
-    memRes (memLen slen) (Translated.memoryGasCost slen lgc n) = Aqv.Evm.memoryGasCost ⟨memLen slen, lgc⟩ n := by
+    memRes (memLen slen) (Translated.memoryGasCost (mem_store_len := slen) (mem_lastGasCost := lgc) n) = Aqv.Evm.memoryGasCost ⟨memLen slen, lgc⟩ n := by
   simp only [Translated.memoryGasCost, Translated.Memory_Len, toWordSize_translated_eq, Aqv.Evm.memoryGasCost, memLen,
     Aqv.Evm.memoryGas, Aqv.Evm.quadCoeffDiv]
   by_cases h0 : n = 0
@@ -129,7 +129,7 @@ theorem tBitLen_gt64 (x : Int) (hx : Fits x) : (Translated.Big.bitLen x > (64 : 
 
 /-- core/vm.callGas (`gasTable.CreateBySuicide` is the only field of the gas table it reads). -/
 theorem callGas_translated_eq (cbs av base : UInt64) (cc : Int) (hcc : Fits cc) :
-    errRes (Translated.callGas cbs av base cc) = Aqv.Evm.callGas cbs av base cc := by
+    errRes (Translated.callGas (gasTable_CreateBySuicide := cbs) av base cc) = Aqv.Evm.callGas cbs av base cc := by
   have hb := tBitLen_gt64 cc hcc
   simp only [Translated.callGas, Translated.callGas.b2, Translated.callGas.b3, Aqv.Evm.callGas, tUint64_eq]
   by_cases h1 : cbs > 0 <;> by_cases h2 : Aqv.Big.bitLen cc > 64
@@ -149,7 +149,7 @@ theorem calcMemSize_translated_eq (off l : Int) : Translated.calcMemSize 0 off l
 
 /-- core/vm.(*Contract).UseGas: `(ok, c.Gas')`; the interpreter models inline it as `if gas < cost then out-of-gas else gas - cost`. -/
 theorem Contract_UseGas_translated_eq (gas cost : UInt64) :
-    Translated.Contract_UseGas gas cost = if gas < cost then (false, gas) else (true, gas - cost) := by
+    Translated.Contract_UseGas (c_Gas := gas) cost = if gas < cost then (false, gas) else (true, gas - cost) := by
   simp only [Translated.Contract_UseGas]
   by_cases h : gas < cost <;> simp [h]
 
